@@ -115,13 +115,12 @@ theorem page_right_of (p r q : Path) (Q : PageId) (hQ : Q <+: specPage (p ++ tru
 
 /-- what the walk needs from the page set: `fresh` hands out whole pages, every page on the way to a terminal is there,
 loaded from the hash table, and the materialised slots represent `S` -/
-structure PSOK (root : Node) (S : List (Key × VH)) (steps : List (Step VH)) : Prop where
+structure PSOK (steps : List (Step VH)) : Prop where
   fresh : ∀ P, (ps.fresh P).length = 126
   load : ∀ s ∈ steps, s.1 ≠ [] → ∀ Q, Q <+: specPage s.1 →
     ∃ pg b, ps.get Q = some (pg, .persisted b) ∧ pg.nodes.length = 126
-  rep : Rep0 H (Mat ps) S (flatStore H ps root)
 
-theorem pathsIn_of_psok {root : Node} {S : List (Key × VH)} {steps : List (Step VH)} (hps : PSOK H ps root S steps) :
+theorem pathsIn_of_psok {steps : List (Step VH)} (hps : PSOK ps steps) :
     PathsIn (Mat ps) steps := by
   intro s hs x hx hne
   have hsne : s.1 ≠ [] := by
@@ -131,7 +130,7 @@ theorem pathsIn_of_psok {root : Node} {S : List (Key × VH)} {steps : List (Step
   · right; rw [hget]; rfl
   · right; rw [specPage_sibPath, hget]; rfl
 
-theorem loadable_of_psok {root : Node} {S : List (Key × VH)} {steps : List (Step VH)} (hps : PSOK H ps root S steps)
+theorem loadable_of_psok (root : Node) {steps : List (Step VH)} (hps : PSOK ps steps)
     (s : Step VH) (hs : s ∈ steps) (hne : s.1 ≠ []) (Q : PageId) (hQ : Q <+: specPage s.1) (st : Store Node)
     (hst : ∀ q, q ≠ [] → specPage q = Q → st q = flatStore H ps root q) : Loadable H ps st Q := by
   obtain ⟨pg, b, hget, hl⟩ := hps.load s hs hne Q hQ
@@ -152,20 +151,21 @@ theorem terminal_not_internal (hs : H.Sound) {S : List (Key × VH)} (hS : KeysOK
 
 /-! ## the invariant of the run -/
 
-structure RunInv (root : Node) (S S' : List (Key × VH)) (done todo : List (Step VH)) (w : Walker Node) (a : TW Node) :
-    Prop where
+structure RunInv (D : Path → Prop) (root : Node) (S S' : List (Key × VH)) (done todo : List (Step VH))
+    (w : Walker Node) (a : TW Node) : Prop where
   sim : Sim H ps w a
   par : w.parentPage = none
   tw : (Idle (flatStore H ps root) (cfgOf H ps none) a ∧ ∀ s ∈ done, s.2.isSome = false) ∨
-       (InvB H (Mat ps) S S' (flatStore H ps root) (cfgOf H ps none) done todo a ∧ done ≠ [])
+       (InvB H D S S' (flatStore H ps root) (cfgOf H ps none) done todo a ∧ done ≠ [])
   last : match done.getLast? with
          | none => w.lastPosition = none
          | some s => ∃ p, w.lastPosition = some p ∧ p.path = s.1
 
 /-- the prologue of every call: the order assertion holds and `compact_up` simulates -/
-theorem runInv_prologue (hs : H.Sound) {root : Node} {S S' : List (Key × VH)} {done todo : List (Step VH)} {s : Step VH}
+theorem runInv_prologue (hs : H.Sound) {D : Path → Prop} {root : Node} {S S' : List (Key × VH)}
+    {done todo : List (Step VH)} {s : Step VH}
     (hso : ScriptOK S S' (done ++ s :: todo)) {w : Walker Node} {a : TW Node}
-    (h : RunInv H ps root S S' done (s :: todo) w a) :
+    (h : RunInv H ps D root S S' done (s :: todo) w a) :
     ∃ w1, w.advancePrologue H (posOfPath s.1) = .ok w1 ∧
       Sim H ps w1 (a.compactUp H (cfgOf H ps none) (some s.1)) ∧ Same w w1 := by
   have hlen := hso.len s (by simp)
@@ -226,15 +226,16 @@ theorem getLast?_append_singleton {α : Type} (l : List α) (x : α) : (l ++ [x]
   simp
 
 /-- one call of the script keeps the invariant and does not reach a panic site -/
-theorem runInv_step (hs : H.Sound) {root : Node} {S S' : List (Key × VH)} (hS : KeysOK S) (hS' : KeysOK S')
+theorem runInv_step (hs : H.Sound) {D : Path → Prop} {root : Node} {S S' : List (Key × VH)} (hS : KeysOK S)
+    (hS' : KeysOK S')
     {done todo : List (Step VH)} {s : Step VH} (hso : ScriptOK S S' (done ++ s :: todo))
-    (hps : PSOK H ps root S (done ++ s :: todo)) {w : Walker Node} {a : TW Node}
-    (h : RunInv H ps root S S' done (s :: todo) w a) :
+    (hps : PSOK ps (done ++ s :: todo)) (hrep : Rep0 H D S (flatStore H ps root))
+    (hDp : PathsIn D (done ++ s :: todo)) (hD0 : D []) {w : Walker Node} {a : TW Node}
+    (h : RunInv H ps D root S S' done (s :: todo) w a) :
     ∃ w', w.stepM H ps s = .ok w' ∧
-      RunInv H ps root S S' (done ++ [s]) todo w' (a.step H (cfgOf H ps none) s) := by
+      RunInv H ps D root S S' (done ++ [s]) todo w' (a.step H (cfgOf H ps none) s) := by
   have hlen := hso.len s (by simp)
   obtain ⟨hpw, hpp⟩ := posOfPath_wf s.1 hlen
-  have hDp := pathsIn_of_psok H ps hps
   obtain ⟨w1, hw1, hs1, hsame1⟩ := runInv_prologue H ps hs hso h
   have hpar1 : w1.parentPage = none := hsame1.1.trans h.par
   have hlast' : ∀ w' : Walker Node, w'.lastPosition = some (posOfPath s.1) →
@@ -279,7 +280,7 @@ theorem runInv_step (hs : H.Sound) {root : Node} {S S' : List (Key × VH)} (hS :
         · exact hdone s' h'
         · rw [List.mem_singleton] at h'; rw [h', hop]; rfl
       · right
-        exact ⟨invB_step H (Mat ps) hs hS hS' hso hDp hps.rep _ a hinv, by simp⟩
+        exact ⟨invB_step H D hs hS hS' hso hDp hrep _ a hinv, by simp⟩
   | some ops =>
     -- `advance_and_replace`
     simp only
@@ -302,7 +303,7 @@ theorem runInv_step (hs : H.Sound) {root : Node} {S S' : List (Key × VH)} (hS :
         refine ⟨?_, ?_, by rw [hidle.store], fun _ => hst⟩
         · intro top rest e; rw [hst] at e; cases e
         · intro Q _ _ q _ _; rw [hidle.store]
-      · obtain ⟨hinv1, hcomp⟩ := invB_compact H (Mat ps) hs hS' hso hps.rep (cfgOf H ps none) a hinv
+      · obtain ⟨hinv1, hcomp⟩ := invB_compact H D hs hS' hso hrep (cfgOf H ps none) a hinv
         obtain ⟨p, w', r, hc, ht⟩ := hinv1.todoP s (List.mem_cons_self ..)
         have hsb : sharedBits (a.compactUp H (cfgOf H ps none) (some s.1)).pos s.1 = p.length := by
           rw [hc, ht]; exact sharedBits_leftOf p w' r
@@ -357,16 +358,16 @@ theorem runInv_step (hs : H.Sound) {root : Node} {S S' : List (Key × VH)} (hS :
           (by
             intro Q hQ hQl _
             rw [hpp] at hQ
-            exact loadable_of_psok H ps hps s (by simp) hne Q hQ _ (hF2 Q hQ hQl))
+            exact loadable_of_psok H ps root hps s (by simp) hne Q hQ _ (hF2 Q hQ hQl))
         rw [hpp] at hs2
         exact ⟨w2, hw2, hs2, hsame2.1.trans hpar1, hsame2.2.1⟩
     obtain ⟨w2, hw2, hs2, hpar2, hlast2⟩ := hbuild
     rw [hw2]
     simp only
     -- `replace_terminal`
-    have hMat : Mat ps s.1 := by
+    have hMat : D s.1 := by
       by_cases hne : s.1 = []
-      · exact Or.inl hne
+      · rw [hne]; exact hD0
       · exact (hDp s (by simp) s.1 (List.prefix_refl _) hne).1
     obtain ⟨w3, hw3, hs3, hsame3, _⟩ := sim_replaceTerminal H ps hs hps.fresh hS' hs2
       (by
@@ -377,7 +378,7 @@ theorem runInv_step (hs : H.Sound) {root : Node} {S S' : List (Key × VH)} (hS :
       (by
         show H.kind (a1.store s.1) ≠ .internal
         rw [hF3]
-        exact terminal_not_internal H hs hS hps.rep s.1 hlen hMat (hso.term s (by simp)))
+        exact terminal_not_internal H hs hS hrep s.1 hlen hMat (hso.term s (by simp)))
     rw [hops]
     have hw3' : w2.replaceTerminal H ps (sub S' s.1) = .ok w3 := hw3
     rw [hw3']
@@ -392,7 +393,7 @@ theorem runInv_step (hs : H.Sound) {root : Node} {S S' : List (Key × VH)} (hS :
       exact hs3
     · right
       rcases h.tw with ⟨hidle, hdone⟩ | ⟨hinv, _⟩
-      · exact ⟨(idle_step_replace H (Mat ps) hs hS hS' hso hDp hps.rep _ a hidle hdone ops hop).2, by simp⟩
-      · exact ⟨invB_step H (Mat ps) hs hS hS' hso hDp hps.rep _ a hinv, by simp⟩
+      · exact ⟨(idle_step_replace H D hs hS hS' hso hDp hrep _ a hidle hdone ops hop).2, by simp⟩
+      · exact ⟨invB_step H D hs hS hS' hso hDp hrep _ a hinv, by simp⟩
 
 end Nomt.Walker
